@@ -156,6 +156,10 @@ def check(ctx: Ctx) -> str:
                 fexpr = src_[0].value if len(src_) == 1 else fexpr
             if isinstance(fexpr, ast.IfExp):
                 ok = (ast.unparse(fexpr.test), ast.unparse(fexpr.body), ast.unparse(fexpr.orelse)) in ((flag, "self._env.getattr", "self._env.getitem"), (f"not {flag}", "self._env.getitem", "self._env.getattr"))
+        if not ok and len(hops) == 1 and isinstance(hops[0].value, ast.IfExp):
+            # ... or the two accessor calls are the arms of one conditional expression
+            ie = hops[0].value
+            ok = (ast.unparse(ie.test), ast.unparse(ie.body), ast.unparse(ie.orelse)) in ((flag, f"self._env.getattr(obj, {keyv})", f"self._env.getitem(obj, {keyv})"), (f"not {flag}", f"self._env.getitem(obj, {keyv})", f"self._env.getattr(obj, {keyv})"))
     ctx.check(ok, "get_field:hops", "sandbox:SandboxedFormatter.get_field", "field hops", "every attribute / item hop of a format field must go through self._env.getattr / getitem", gf.loc())
     bad = [c for c in astq.calls(gf.node) if astq.callee(c) in ("getattr", "super().get_field")]
     ctx.check(not bad, "get_field:no-builtin", "sandbox:SandboxedFormatter.get_field", "builtin access", "get_field uses builtin getattr / the unsandboxed base implementation", gf.loc())
